@@ -228,14 +228,15 @@ def pyStr (env : Env) : Val → R Val
       -- `str()` of a str-mixin member: Enum.__str__ is 'Cls.name' (needs the class name)
       .error .unsupported
     else .error .unsupported
-  | v => if isTemporal v then .ok (.str (isoText v)) else .error .unsupported
+  | .date o => .ok (.str (dateText o))      -- `str(date)` is the ISO text; the other temporals print differently
+  | _ => .error .unsupported
 
 /-- `StringUnmarshaller`. -/
 def umStr (env : Env) (v : Val) : R Val :=
   match decode v with
   | .str s => .ok (.str s)
   | .member c i => if isStrMixin env c then .ok (.member c i) else .error .unsupported
-  | d => pyStr env d
+  | d => if isTemporal d then .ok (.str (isoText d)) else pyStr env d
 
 def marStr (env : Env) (v : Val) : R Val :=
   match v with
